@@ -32,7 +32,7 @@ NSA = "Adept.StackProto."
 NSB = "Adept.Misuse."
 REQUIRED_A = ["C11_pass_before_seed", "C11_get_before_seed", "C11_created_after_seed", "C11_pass_after_creation",
               "C11_jacobian_no_lists", "C11_jacobian_wrong_size", "C11_append_wrong_lhs", "C11_second_stack",
-              "C11_no_wild_access", "C11_usable_after"]
+              "C11_no_wild_access", "C11_usable_after", "C11_range_get", "C11_range_set"]
 REQUIRED_B = ["C11_arr_negative_extent_new", "C11_arr_negative_extent_resize", "C11_arr_expr_mismatch", "C11_arr_assign_mismatch",
               "C11_arr_compound_mismatch", "C11_arr_where_mismatch", "C11_arr_fill_overflow", "C11_arr_fill_object_overflow",
               "C11_arr_fill_empty", "C11_arr_not_square", "C11_arr_link_empty", "C11_arr_matmul_empty",
@@ -170,7 +170,8 @@ def gen_case_a(rng, W, pausable, want, maxnew=3):
                     if g.hit("pass_before_seed"):
                         g.mark("pass_before_seed", rng.choice(["fwd", "rev"]))
                     if g.hit("get_before_seed"):
-                        g.mark("get_before_seed", "get %d" % rng.choice(live))
+                        g.mark("get_before_seed", rng.choice(["get %d" % rng.choice(live),
+                                                              "getr %d %d %d" % (rng.choice(live), rng.randint(1, 3), rng.choice([1, 2]))]))
                     g.emit("state")
                     seeds = [(rng.choice(live), rng.randint(-3, 3)) for _ in range(rng.randint(1, 3))]
                     for k, v in seeds:
@@ -200,6 +201,15 @@ def gen_case_a(rng, W, pausable, want, maxnew=3):
                                 g.mark("created_after_seed", "seed %d %d" % (k, rng.randint(-3, 3)))
                             elif x < 0.85:
                                 g.mark("created_after_seed", "get %d" % k)
+                        # range forms over the late objects and over ranges that START inside the allocated vector and end
+                        # beyond it (an array created late straddles the end; a strided view of it has a span > its count)
+                        for _ in range(rng.randint(0, 3)):
+                            k = rng.choice(fresh + list(g.live)[-3:])
+                            if k in g.live:
+                                if rng.random() < 0.7:
+                                    g.mark("created_after_seed", "getr %d %d %d" % (k, rng.randint(0, 4), rng.choice([1, 1, 2, 3])))
+                                else:
+                                    g.mark("created_after_seed", "setr %d %s" % (k, " ".join(str(rng.randint(-3, 3)) for _ in range(rng.randint(1, 4)))))
                         if fresh and rng.random() < 0.4:
                             # the late objects take part in a statement and are destroyed again BEFORE the pass: the statement
                             # that mentions their gradient indices stays on the tape while i_gradient_ falls back
@@ -219,6 +229,8 @@ def gen_case_a(rng, W, pausable, want, maxnew=3):
                     live = list(g.live)
                     for k in rng.sample(live, min(len(live), 4)):
                         g.emit("get %d" % k)
+                    for k in rng.sample(live, min(len(live), 2)):
+                        g.emit("getr %d %d %d" % (k, rng.randint(0, 4), rng.choice([1, 1, 2, 3])))
                     if created:
                         # recovery by the documented means: clear, seed again, run the pass
                         g.emit("clrg"); g.emit("state")
@@ -290,7 +302,7 @@ def track_a(ops, il, meta):
         if l.startswith("EXC "):
             _bump(stats["exc"], l[4:])
         hs = []
-        if c in ("del", "setp", "seed", "get", "val", "indep", "dep", "cadd", "csub", "cmul"):
+        if c in ("del", "setp", "seed", "get", "val", "indep", "dep", "cadd", "csub", "cmul", "getr", "setr"):
             hs = [int(w[1])]
         elif c == "newc":
             hs = [int(w[2])]
@@ -386,6 +398,35 @@ def track_a(ops, il, meta):
                 exp = "g %d" % g.get(idx[int(w[1])], 0)
             else:
                 stats["undecided"] += 1
+        elif c == "getr":
+            # range read (what Array::get_gradient does for an active array / a strided view): n elements from the index of the
+            # handle, separation ss; the whole SPAN start .. start+(n-1)*ss must lie inside the vector allocated at the first seed
+            start, n_, ss = idx[int(w[1])], int(w[2]), int(w[3])
+            endp1 = start if n_ == 0 else start + (n_ - 1) * ss + 1
+            if not seeded:
+                exp = "EXC gradients_not_initialized"
+            elif mg_init is None:
+                stats["undecided"] += 1
+            elif endp1 > mg_init:
+                exp = "EXC gradient_out_of_range"
+            elif g is not None:
+                exp = ("G " + " ".join(str(g.get(start + j * ss, 0)) for j in range(n_))).rstrip() if n_ else "G"
+            else:
+                stats["undecided"] += 1
+        elif c == "setr":
+            start, vs_ = idx[int(w[1])], [int(x) for x in w[2:]]
+            if not seeded:
+                mg_init = mg if mg_fresh else None
+                seeded = True; g = {}
+            if mg_init is None:
+                stats["undecided"] += 1; g = None
+            elif start + len(vs_) > mg_init:
+                exp = "EXC gradient_out_of_range"
+            else:
+                exp = "ok"
+                if g is not None:
+                    for j, v_ in enumerate(vs_):
+                        g[start + j] = v_
         elif c in ("fwd", "rev"):
             if not seeded:
                 exp = "EXC gradients_not_initialized"
